@@ -594,7 +594,12 @@ func runTree(r *ev.Run, id string, idx int) {
 			}
 		}
 	}
-	if r.Thorough() || idx%2 == 0 {
+	switch {
+	case idx == 0:
+		reads = append([]rd{{5, 8}}, reads...) // the design-phase witness first
+	case idx == 1:
+		reads = append([]rd{{2, 5}}, reads...)
+	case r.Thorough() || idx%2 == 0:
 		rng.Shuffle(len(reads), func(i, j int) { reads[i], reads[j] = reads[j], reads[i] })
 	}
 	for _, q := range reads {
